@@ -60,4 +60,9 @@ CHECKS = {
         quick=dict(groups=[G("stateful", "^TestC05Stateful$", 300, 8)]),
         thorough=dict(groups=[G("stateful", "^TestC05Stateful$", 4000, 16)]),
     ),
+    "C14": dict(
+        title="Placement roster is what was committed; signatures need REP distinct members",
+        quick=dict(groups=[G("roster", "^TestC14Roster$", 40, 6), G("signatures", "^TestC14Signatures$", 150, 8)]),
+        thorough=dict(groups=[G("roster", "^TestC14Roster$", 400, 8), G("signatures", "^TestC14Signatures$", 3000, 8)]),
+    ),
 }
